@@ -13,7 +13,7 @@ RULE = ('ELF models (class x byte order x e_machine incl. the table-switching ma
         'and lookup is compared with the model. Non-trivial: >=2 sections and >=1 segment and at least one of: MSB, '
         'oversized entry, non-canonical table order, extended numbering, a machine-switched or unknown type code. '
         'Distinct by SHA-1 of the encoded file.')
-N = {'quick': 3000, 'thorough': 150000}
+N = {'quick': 3000, 'thorough': 100000}
 ASSUMPTIONS = ['writer vf/enc/elf.py emits gABI-conformant structures (refereed by readelf in vf.selfcheck)',
                'sh_flags SHF_COMPRESSED kept clear (C02 domain); section index 0 is all-zero apart from escapes',
                'names reported for codes the registries do not know are checked against the library table of the expected machine only']
